@@ -16,6 +16,7 @@ Messages marked for deletion via DELE are only expunged on a clean QUIT.
 import asyncio
 import logging
 import re
+from bisect import bisect_left
 from typing import TYPE_CHECKING, Any
 
 # Project imports
@@ -329,8 +330,15 @@ class POP3CommandHandler:
         """
         assert self.mbox is not None
         uid = self.snapshot_uids[pop3_num - 1]
-        idx = self.mbox._uid_to_idx.get(uid)
-        if idx is None:
+        # NOTE: POP3 commands do not wait for their turn on the mailbox, so an
+        #       IMAP EXPUNGE may be half way through: messages already gone
+        #       from `uids` and `msg_keys` while the uid index has not been
+        #       rebuilt yet. Those two lists always agree with each other and
+        #       the uids are ascending, so we look the uid up in the list.
+        #
+        uids = self.mbox.uids
+        idx = bisect_left(uids, uid)
+        if idx >= len(uids) or uids[idx] != uid:
             return None
         return self.mbox.msg_keys[idx]
 
